@@ -34,7 +34,7 @@ StepClauses(e) ==
   (IF e.out # OutInt(e.s) THEN {"output-bit"} ELSE {}) \cup
   (IF e.s2 # StepInt(e.s, e.order, Taps[e.order]) THEN {"next-state"} ELSE {})
 
-VerdictClauses(e) == IF e.raised # Verdict(e.order, e.lenKind, e.lenSign) THEN {"verdict"} ELSE {}
+VerdictClauses(e) == IF e.raised \notin Verdicts(e.order, e.lenKind, e.lenSign) THEN {"verdict"} ELSE {}
 
 Clauses(e) == CASE e.kind = "call" -> CallClauses(e)
                 [] e.kind = "period" -> PeriodClauses(e)
